@@ -111,6 +111,9 @@ func c13Body(c *run.Ctx) {
 		if a.Err == nil {
 			return
 		}
+		if errors.Is(a.Err, sim.ErrHung) {
+			c.Failf("C13.call-after-failure-never-returned", "after %d injected backend failure(s) in hand %d the engine no longer answers: %s", failedThisHand, s.Cur.N, s.Hung)
+		}
 		if !errors.Is(a.Err, backend.ErrInjected) {
 			return // the driver reports an unexpected refusal as a stall; judged in AfterHand
 		}
@@ -146,6 +149,7 @@ func c13Body(c *run.Ctx) {
 	o.Prepare = func(s *sim.Sim) {
 		s.BE.FaultFn = plan.decide
 		s.BE.FaultAfter = plan.after
+		s.CallGuard = 15 * time.Second // a failed call must not leave the engine unable to take the next one
 	}
 	engineFailPlanned := false
 	o.BeforeHand = func(s *sim.Sim, n int) bool {
